@@ -95,7 +95,19 @@ def make_ops(rng, h, n, kind):
             else:
                 ops.append((rng.choice(["get_spoken_text", "get_braille_", "get_overview_text", "do_navigate_command"]),))
             continue
-        if k < 0.38:
+        if k < 0.03:
+            # a position INSIDE a multi-character leaf with non-ASCII text, then every getter that looks at the character under the position
+            text = rng.choice(["größe", "día", "naïve café", "αβγ", "x½y", "для", "a\u00a0\u00a0b", "∑∏∫", "𝒜𝒫x", "中文字", "e\u0301e\u0301"])
+            tag = rng.choice(["mtext", "mi", "mn", "mo"])
+            wrap = rng.choice(["%s", "<mrow><mi>x</mi><mo>=</mo>%s</mrow>", "<msup><mi>x</mi>%s</msup>", "<mfrac><mn>1</mn>%s</mfrac>"])
+            ops.append(("set_mathml", "<math>" + wrap % ("<%s>%s</%s>" % (tag, text, tag)) + "</math>", "non-ascii-leaf"))
+            for off in rng.sample([0, 1, 2, 3, 4, 5], 3):
+                ops.append(("set_navigation_node", "@last", off))
+                ops.append((rng.choice(["get_navigation_braille", "get_braille_position", "get_navigation_mathml", "get_navigation_mathml_id"]),))
+                if rng.random() < 0.5:
+                    ops.append(("do_navigate_command", rng.choice(["ReadCurrent", "DescribeCurrent", "WhereAmI", "MoveNext", "MovePrevious", "ZoomIn"])))
+                    ops.append(("get_navigation_braille",))
+        elif k < 0.38:
             s, cls, _ = h.mathml()
             ops.append(("set_mathml", s, cls))
         elif k < 0.58:
@@ -129,7 +141,7 @@ def concrete(op, ids, h):
     """resolve '@id' placeholders; returns the tuple passed to the driver (the set_mathml class tag is dropped)"""
     if op[0] == "set_mathml":
         return ("set_mathml", op[1])
-    return tuple(h.node_id(ids) if a == "@id" else a for a in op)
+    return tuple(h.node_id(ids) if a == "@id" else ((ids[-1] if ids else "nosuch") if a == "@last" else a) for a in op)
 
 
 def run_session(spec_session, st, flavour="native", record=None, judge_recovery=True):
